@@ -4,6 +4,8 @@
 WT=$1; NAME=$2; shift 2
 OUT=/verif/seeded/$NAME
 mkdir -p $OUT
+# bring the worktree to /repo's HEAD, keeping the uncommitted change
+git -C $WT checkout -q --detach $(git -C /repo rev-parse HEAD) 2>&1 | tail -1
 git -C $WT diff -- trashcli trash-put trash-list trash-restore trash-empty trash-rm trash > $OUT/patch.diff
 [ -s $OUT/patch.diff ] || { echo "EMPTY PATCH"; exit 2; }
 cp -r $WT/seed_demo/. $OUT/demo/ 2>/dev/null || mkdir -p $OUT/demo; cp -r $WT/seed_demo/* $OUT/demo/ 2>/dev/null
@@ -17,7 +19,7 @@ case "$DEMO" in
 esac
 (cd $WT && PYTHONPATH=$WT $RUN > $OUT/demo_with_change.txt 2>&1; echo "exit=$?" >> $OUT/demo_with_change.txt); tail -2 $OUT/demo_with_change.txt
 echo "== demo without change"
-(cd $WT && git stash -q && PYTHONPATH=$WT $RUN > $OUT/demo_without_change.txt 2>&1; echo "exit=$?" >> $OUT/demo_without_change.txt; git stash pop -q); tail -2 $OUT/demo_without_change.txt
+(cd $WT && git apply -R $OUT/patch.diff && PYTHONPATH=$WT $RUN > $OUT/demo_without_change.txt 2>&1; echo "exit=$?" >> $OUT/demo_without_change.txt; git apply $OUT/patch.diff); tail -2 $OUT/demo_without_change.txt
 for P in "$@"; do
   echo "== check $P against the change"
   /verif/check $P --repo $WT --no-evidence 2>&1 | grep -v '^  ' | cut -c1-400 | grep -v KNOWN-FINDING | tail -4 | tee $OUT/check_$P.txt
